@@ -269,6 +269,13 @@ class Rng:
     def choice(self, xs):
         return xs[self.below(len(xs))]
 
+    def sample(self, xs, k):
+        xs = list(xs)
+        out = []
+        for _ in range(min(k, len(xs))):
+            out.append(xs.pop(self.below(len(xs))))
+        return out
+
     def chance(self, num, den):
         return self.below(den) < num
 
